@@ -7,6 +7,15 @@ import (
 var DataKeys = []string{"a", "b", "c", "x"}
 var hostileKeys = []string{"a b", "", "é", "it's", `q"`, "*", "0", "$", "@", "a.b", "[0]", "\\", "\n"}
 
+// every ASCII control character (each has its own entry in the escape tables of the
+// printers and its own case in the parser), DEL, and the characters around them
+func init() {
+	for b := 0; b < 0x20; b++ {
+		hostileKeys = append(hostileKeys, string(rune(b)), "k"+string(rune(b))+"z")
+	}
+	hostileKeys = append(hostileKeys, "\x7f", "a\x7fb", "\u0080", "\u2028", "tab\there", "\r\n", "/", "a/b", "`", "a|b", "#", "?", "(", ")", ",", ":", "a,b", "'", "''", `"'`, "\\'", "😀")
+}
+
 // DrawData draws a JSON-like tree whose keys and array lengths make the generated
 // paths select something.
 func DrawData(t *rapid.T, depth int) any {
@@ -161,6 +170,9 @@ func drawConst(t *rapid.T) *Eq {
 	case 5:
 		return &Eq{Op: "const", CK: "float", CF: rapid.SampledFrom([]float64{1.5, 2.5, -0.5, 0.5, 1e3}).Draw(t, "cf")}
 	default:
+		if rapid.IntRange(0, 5).Draw(t, "hostilecs") == 0 {
+			return &Eq{Op: "const", CK: "string", CS: rapid.SampledFrom(hostileKeys).Draw(t, "hcs")}
+		}
 		return &Eq{Op: "const", CK: "string", CS: rapid.SampledFrom([]string{"a", "b", "x", "", "abc", "1", "B"}).Draw(t, "cs")}
 	}
 }
